@@ -208,5 +208,28 @@ T:
 	say(fmt.Sprint("firstOf:", firstOf(fa, fstop), " park:", park(false)))
 	close(fstop)
 	say(fmt.Sprint("firstOf stop:", firstOf(fa, fstop)))
+
+	// 8. sorts (their comparisons are preemption points under the simulation); each goroutine sorts its own copy
+	words := []string{"pear", "apple", "fig", "kiwi", "date", "plum"}
+	sorted := make([][]string, 3)
+	var swg sync.WaitGroup
+	for i := range sorted {
+		swg.Add(1)
+		go func(i int) {
+			defer swg.Done()
+			c := append([]string(nil), words...)
+			switch i {
+			case 0:
+				sort.Strings(c)
+			case 1:
+				sort.Slice(c, func(a, b int) bool { return c[a] < c[b] })
+			case 2:
+				sort.Sort(sort.StringSlice(c))
+			}
+			sorted[i] = c
+		}(i)
+	}
+	swg.Wait()
+	say(fmt.Sprint("sorted:", sorted[0], sorted[1][0], sorted[2][5]))
 	return strings.Join(log, ";")
 }
